@@ -434,6 +434,12 @@ def tpPrec (cfg : Cfg) (f : Spec) (tp : TySet) : Except (ErrClass ⊕ Py.Exc) Ty
     | .error e => .error (.inr e)
     | .ok n => if n > cfg.ssizeMax then .error (.inl .FormatError) else .ok tp3
 
+/-- the two combinations the typing rules let through although `int.__format__` refuses them for every value (the open
+    finding of C13): a thousands comma with `b`, `c`, `o`, `x`, `X`; a sign or `#` with `c` -/
+def Spec.quirk (f : Spec) : Bool :=
+  (f.comma && (f.type == some 'b' || f.type == some 'c' || f.type == some 'o' || f.type == some 'x' || f.type == some 'X'))
+    || (f.type == some 'c' && (f.alt || f.sign.isSome))
+
 /-- the typing rules of `Field.__init__` on a matched specification, in source order -/
 def specCheck (cfg : Cfg) (f : Spec) : Except (ErrClass ⊕ Py.Exc) TySet :=
   match tpType f with
